@@ -13,7 +13,8 @@ EXPLANATION = (
     "path, and every consume-write leads to that return; (CAPACITY) the consume-write is dominated by the capacity "
     "guard; (REFILL) every other write of the consumed state (refill, pop_front, bucket rotation) is dominated by "
     "the elapsed-time guard, and the new window start is the instant that guard compared; (ADMIT) in the service "
-    "the wrapped call is reached only on the Ok edge of awaiting acquire, once, outside any cycle.")
+    "the wrapped call is reached only on the Ok edge of awaiting acquire, once, outside any cycle."
+    ' (SENTINEL) an `Ok(wait)` answered on a path that took no permit has no origin that is zero by construction (literal ZERO, `checked_*(..).unwrap_or(ZERO)`, `min(_, timeout_duration)`): `Ok(ZERO)` means "permit taken" to acquire(). Numeric waits computed by helpers are not judged.')
 RULE = "one obligation per Ok-return of acquire, per window state (consume, capacity, refill writes), per wrapped-call site"
 TRUSTED = ["std::sync::Mutex (mutual exclusion of window updates)", "tokio::time::sleep", "rustc MIR construction"]
 ASSUMPTIONS = ["limit_for_period >= 1 (the property's quantifier) for the one reasoned exception in the sliding log"]
